@@ -34,7 +34,7 @@ SEGMENTS = {
     "quick": [("ieq_small", 27), ("ieq4", 543), ("ieq_rand", _sc(400)), ("closure_exh", 193),
               ("closure_rand", _sc(220)), ("indep", _sc(600)), ("imap", _sc(400))],
     "thorough": [("ieq_small", 27), ("ieq4", 543), ("ieq_rand", _sc(6000)), ("closure_exh", 193),
-                 ("closure_rand", _sc(6000)), ("indep", _sc(8000)), ("imap", _sc(3500))],
+                 ("closure_rand", _sc(6000)), ("indep", _sc(6000)), ("imap", _sc(3000))],
 }
 PLAN = {
     "quick": {"cases": sum(c for _, c in SEGMENTS["quick"]), "hashseeds": 3, "shards": 5, "timeout": 420,
